@@ -9,6 +9,9 @@ CLAIMED = {
  'C07': dict(level='other', design='§5 C07', technique='symbolic execution of clang IR + automatic differentiation of the value function\'s own expression + canonical-radical normal form; z3 decides residual != 0',
    text='For all bead geometries away from the singular set, the expression IBond/IAngle/IDihedral::Grad computes equals the derivative (AD over the executed IR) of what EvaluateVar computes, per bead and component, and the gradients sum to zero; for LJ126/LJG and the cubic B-spline, CalculateDF/D2F equal the parameter derivatives of CalculateF (inside and outside [min,cut]), D2F symmetric. Each identity is reduced to a polynomial residual and z3 is asked for a point where it is non-zero under the defining constraints of the radical/exp symbols; a model is replayed by finite differences on the g++ build.',
    note='exact real arithmetic; Topology::getDist is the environment boundary (independent symbols, chain rule +-1); sqrt/acos/exp as canonical symbols with defining relations; CBSPL knot layouts concrete (listed in evidence); spline derivative clause is decided under C12; SavePotTab and rotation/image invariance are outside this check'),
+ 'C12': dict(level='other', design='§5 C12', technique='symbolic execution of the real spline classes (symbolic ordinates / knots, forking on getInterval and Akima tie tests) + z3 on the per-path coefficient identities; Eigen QR replaced by its exact-solve contract',
+   text='Linear spline (symbolic strictly increasing knots, n<=3), Akima (concrete uniform and non-uniform grids n=4,5, symbolic ordinates, all tie-branches of getSlope) and natural cubic spline (concrete grids n=3,4; system assembled by the real Interpolate, solved exactly): interpolation at knots from both sides, C0 (and C1 for Akima/cubic), CalculateDerivative = d/dr Calculate, straight-line data reproduced exactly with its slope, linear dependence on the ordinates (linear, cubic f\'\'), zero end curvature, non-singular system; periodic end conditions (two known findings); Table::Smooth keeps end points and straight lines.',
+   note='exact reals with double literals that are nearest to a small rational read as that rational (1.0/6.0 etc.); Eigen HouseholderQR by contract (A x = b solved exactly, det != 0 obligation); Fit, csg_resample and large grids are outside; grids listed in the evidence are bounds'),
  'C13': dict(level='model_checking', engine='e1-cbmc', design='§5 C13', technique='IR->C translation of the real HistogramNew::Process + CBMC (bit-precise doubles/ints, bounds checks) for memory safety; symbolic execution + z3 (linear int/real) for bin semantics, normalisation and the legacy auto range',
    text='E1: for every finite v, scale, min<max, step>0 and nbins<=8 (thorough 64), periodic or not, CBMC shows every memory access of the translated real Process stays inside the nbins-double buffer (unwinding assertions on, reachability witness). E2: for nbins<=3 (thorough 5), all real min, listed range lengths, all real values/weights, each bin ends up with exactly the weights of the values whose nearest centre it is (wrapped modulo nbins when periodic, dropped otherwise), bins sum to the accepted weight, Normalize keeps ratios and makes sum*step=1, and the legacy Histogram automatic range is exactly [min,max] of the data for any sign.',
    note='allocation failure out of scope; out-of-range double->int64 conversion reported as UB-CLASS (not a violation); E2 in exact reals; legacy histogram only for n_=3, auto range, no scaling'),
